@@ -209,3 +209,71 @@ func VerifH_C15_SamePathText() {
 	check(ms.Child("c").Child("gl"), "urn:x", "grouping-path")
 	check(ms.Child("ul"), wantU, "own-path")
 }
+
+// VerifH_C15_TwoMusts: ONE node carrying two must statements written in different
+// modules - the grouping's own (module D, prefix p bound to X) and a second one added by
+// a refine in the using module U or by a deviation in a third module V, where the same
+// prefix p is bound to Y, to X, or not at all.  Each expression is resolved through the
+// imports of the module it is written in.
+func VerifH_C15_TwoMusts() {
+	via := vrt.Choice("second-must-via", 2) // 0 refine in U, 1 deviate add in V
+	bind := vrt.Choice("p-bound-to", 3)     // where the second must is written: 0 Y, 1 X, 2 unbound
+	imp := ""
+	switch bind {
+	case 0:
+		imp = "import y { prefix p; } "
+	case 1:
+		imp = "import x { prefix p; } "
+	}
+	second := "../p:a = 'w'"
+	texts := map[string]string{
+		"x": "module x { namespace 'urn:x'; prefix x; leaf xa { type string; } }",
+		"y": "module y { namespace 'urn:y'; prefix y; leaf ya { type string; } }",
+		"d": "module d { namespace 'urn:d'; prefix d; import x { prefix p; } grouping g { leaf gl { type string; must \"../p:a = 'v'\"; } } }",
+	}
+	if via == 0 {
+		texts["u"] = "module u { namespace 'urn:u'; prefix u; import d { prefix d; } " + imp +
+			"container c { uses d:g { refine gl { must \"" + second + "\"; } } } }"
+	} else {
+		texts["u"] = "module u { namespace 'urn:u'; prefix u; import d { prefix d; } container c { uses d:g; } }"
+		texts["v"] = "module v { namespace 'urn:v'; prefix v; import u { prefix u; } " + imp +
+			"deviation /u:c/u:gl { deviate add { must \"" + second + "\"; } } }"
+	}
+	ok := bind != 2
+	vrt.Reach("c15.twomusts.via" + strconv.Itoa(via))
+	ms, err := compileTexts(texts, featSet{}, nil)
+	if err != nil {
+		vrt.Observe("verdict", via, bind, err.Error())
+	} else {
+		vrt.Observe("verdict", via, bind, "ok")
+	}
+	vrt.Assert((err == nil) == ok, "c15.twomusts.verdict")
+	if err != nil {
+		return
+	}
+	musts := ms.Child("c").Child("gl").Musts()
+	vrt.Assert(len(musts) == 2, "c15.twomusts.both-present")
+	if len(musts) != 2 {
+		return
+	}
+	wantSecond := "urn:y"
+	if bind == 1 {
+		wantSecond = "urn:x"
+	}
+	seen := 0
+	for _, m := range musts {
+		listing := m.Mach.PrintMachine()
+		vrt.Observe("listing", m.Mach.GetExpr(), listing)
+		want := "urn:x"
+		if m.Mach.GetExpr() == second {
+			want = wantSecond
+			seen++
+		}
+		other := "urn:y"
+		if want == "urn:y" {
+			other = "urn:x"
+		}
+		vrt.Assert(strings.Contains(listing, want) && !strings.Contains(listing, other), "c15.twomusts.each-resolved-where-written")
+	}
+	vrt.Assert(seen == 1, "c15.twomusts.both-present")
+}
